@@ -3,6 +3,7 @@
 
 mod batch;
 mod bytes;
+mod exotic;
 mod gen;
 mod medium;
 mod node;
